@@ -434,20 +434,47 @@ func runDesc(cfg *Cfg) {
 		if t.Info.Proto.ProtoReflect().Type().Descriptor() != md {
 			out.Violate("C19", "descriptor-identity", "Type().Descriptor() differs", replay)
 		}
-		// enums of this message's file
-		enums := md.ParentFile().Enums()
-		for i := 0; i < enums.Len(); i++ {
-			ed := enums.Get(i)
+		// enums of this message's file: file-level ones and the ones nested in its messages (at any depth)
+		var allEnums []protoreflect.EnumDescriptor
+		{
+			fe := md.ParentFile().Enums()
+			for i := 0; i < fe.Len(); i++ {
+				allEnums = append(allEnums, fe.Get(i))
+			}
+			var walkM func(ms protoreflect.MessageDescriptors)
+			walkM = func(ms protoreflect.MessageDescriptors) {
+				for i := 0; i < ms.Len(); i++ {
+					ne := ms.Get(i).Enums()
+					for k := 0; k < ne.Len(); k++ {
+						allEnums = append(allEnums, ne.Get(k))
+					}
+					walkM(ms.Get(i).Messages())
+				}
+			}
+			walkM(md.ParentFile().Messages())
+		}
+		for _, ed := range allEnums {
 			et, err := protoregistry.GlobalTypes.FindEnumByName(ed.FullName())
 			if err != nil {
 				out.Violate("C19", "enum-not-registered", string(ed.FullName()), replay)
 				continue
 			}
+			if et.Descriptor() != ed {
+				out.Violate("C19", "enum-methods", "registered enum type of "+string(ed.FullName())+" has another descriptor", replay)
+			}
+			// a number the enum does not declare: String() is the decimal number, Number() keeps it
+			undeclared := protoreflect.EnumNumber(1234567)
+			if ed.Values().ByNumber(undeclared) == nil {
+				e := et.New(undeclared)
+				if s, ok := e.(fmt.Stringer); e.Number() != undeclared || e.Descriptor() != ed || (ok && s.String() != "1234567") {
+					out.Violate("C19", "enum-methods", "undeclared number of "+string(ed.FullName())+fmt.Sprintf(": Number()=%d String()=%v", e.Number(), e), replay)
+				}
+			}
 			for j := 0; j < ed.Values().Len(); j++ {
 				ev := ed.Values().Get(j)
 				e := et.New(ev.Number())
-				if e.Number() != ev.Number() || e.Descriptor() != ed {
-					out.Violate("C19", "enum-methods", "enum Number/Descriptor mismatch for "+string(ev.FullName()), replay)
+				if e.Number() != ev.Number() || e.Descriptor() != ed || e.Type().Descriptor() != ed {
+					out.Violate("C19", "enum-methods", "enum Number/Descriptor/Type mismatch for "+string(ev.FullName()), replay)
 				}
 				if s, ok := e.(fmt.Stringer); ok && s.String() != string(ev.Name()) {
 					// the first declared name wins for aliased numbers
